@@ -39,6 +39,10 @@ pub struct Case {
 #[derive(Clone, Copy, Debug, Serialize, Deserialize, PartialEq, Eq)]
 pub struct GenLeg {
     pub arrays: bool,
+    /// generated with `fancy_regex(true)` (recognisers use the fancy-regex engine, whose
+    /// `find` can fail at run time, e.g. with BacktrackLimitExceeded)
+    #[serde(default)]
+    pub fancy: bool,
 }
 
 fn kind_of(mode: u8) -> Option<LayoutKind> {
@@ -245,6 +249,7 @@ impl Prop for C15 {
     fn assumptions(&self) -> Vec<String> {
         vec![
             "step budget 1e5 calls for LR (inputs <= 220 bytes; LR work is linear) and 2e6 for GLR (inputs <= 24 bytes; GLR work is polynomial in the token count with degree <= longest right-hand side + 1, so the budget is far above legitimate work only for short inputs)".into(),
+            "no terminal matches the empty string: a repetition of an empty-matching terminal (`S: A+; A: /a*/;`) yields empty tokens forever by construction (empty-matching terminals are used deliberately, e.g. integer_suffix_opt in examples/clang); recorded in DESIGN.md as an observation outside the explored domain".into(),
             "custom lexers always make progress (one character per token) or return nothing, so non-termination cannot be blamed on them".into(),
             "debug assertions and overflow checks are ON (what `cargo test` users run)".into(),
         ]
@@ -419,6 +424,9 @@ impl Prop for C15 {
 // leg 2: generated parsers (engine B)
 
 fn gen_inputs(c: &Case) -> Vec<String> {
+    if c.generated.map(|g| g.fancy).unwrap_or(false) {
+        return c.raw_inputs.clone();
+    }
     let max_len = if c.glr { 24 } else { 220 };
     let ntape = c.g.tapes.len();
     inputs_of(c)
@@ -452,7 +460,7 @@ pub fn generated_batch(cases: &[Case], tag: &str) -> Result<(Vec<crate::runner::
             None => continue,
         };
         let text = spec_of(c).render();
-        let cfg = BConfig { glr: c.glr, builder: 1, arrays: g.arrays, loc_info: false, fancy: false, custom_lexer: false, rn_table: false };
+        let cfg = BConfig { glr: c.glr, builder: 1, arrays: g.arrays, loc_info: false, fancy: g.fancy, custom_lexer: false, rn_table: false };
         let m = format!("m{i}");
         match sc.generate(&m, &text, &cfg) {
             GenResult::Ok => {}
@@ -544,12 +552,50 @@ pub fn generated_leg(tier: Tier, seed: u64) -> crate::runner::RunResult {
                 continue;
             }
             for arrays in [false, true] {
-                cases.push(Case { glr, generated: Some(GenLeg { arrays }), ..c.clone() });
+                cases.push(Case { glr, generated: Some(GenLeg { arrays, fancy: false }), ..c.clone() });
                 any = true;
             }
         }
         if any {
             grammars += 1;
+        }
+    }
+    // fancy-regex family: look-around / back-references inside nested repetitions, whose
+    // matching can fail at run time (backtrack limit) on long repetitive inputs
+    for (k, re) in ["(?:(?:(?!b).)+c?)+b", "(a+)+\\1b", "(?:a|aa)+(?=c)c", "(?<![a-z])a+"].iter().enumerate() {
+        let spec = GrammarSpec {
+            terms: vec![TermSpec::regex("Fx", re, &["ab"]), TermSpec::regex("Word", "[a-d]+", &["abc"]), TermSpec::str("Semi", ";")],
+            rules: vec![RuleSpec {
+                name: "S".into(),
+                annotation: None,
+                meta: Meta::default(),
+                alts: vec![AltSpec::of(vec![Sym::T(0), Sym::T(2)]), AltSpec::of(vec![Sym::T(1), Sym::T(2)]), AltSpec::of(vec![Sym::T(0), Sym::N(0)])],
+            }],
+            layout: None,
+        };
+        let raw_inputs = vec![
+            "a".repeat(30),
+            format!("{}c;", "a".repeat(34)),
+            format!("{}b;", "a".repeat(12)),
+            "ab;".to_string(),
+            "abab;abab".to_string(),
+            String::new(),
+            format!("{}\n{}", "a".repeat(28), "a".repeat(28)),
+        ];
+        for glr in [false, true] {
+            cases.push(Case {
+                g: GCase { spec: spec.clone(), tapes: vec![], lines: false, layout_mode: 0 },
+                glr,
+                ps: false,
+                pse: true,
+                partial: false,
+                raw_inputs: raw_inputs.clone(),
+                meta_tape: vec![],
+                mutations: vec![],
+                badlex: vec![],
+                layout_mode: 0,
+                generated: Some(GenLeg { arrays: k % 2 == 0, fancy: true }),
+            });
         }
     }
     let mut failures = vec![];
@@ -572,7 +618,7 @@ pub fn generated_leg(tier: Tier, seed: u64) -> crate::runner::RunResult {
         "grammars": grammars,
         "modules_run": ran,
         "parses": parses,
-        "rule": "acyclic grammars of the same families x {LR (raw table conflict free), GLR} x {functions, arrays}; the inputs of leg 1 (<= 24 bytes for GLR unless rendered) parsed by a fresh generated parser each and once more by one reused instance, under catch_unwind; any panic or abort is a violation",
+        "rule": "acyclic grammars of the same families x {LR (raw table conflict free), GLR} x {functions, arrays}, plus four hand-written grammars generated with fancy_regex (look-around / back-references in nested repetitions) on long repetitive inputs; the inputs of leg 1 (<= 24 bytes for GLR unless rendered) parsed by a fresh generated parser each and once more by one reused instance, under catch_unwind; any panic or abort is a violation",
         "wall_s": (t0.elapsed().as_secs_f64() * 100.0).round() / 100.0,
     });
     crate::runner::append_leg("C15", tier, seed, failures, "generated_code_leg", cov)
